@@ -418,6 +418,39 @@ C19_TickKeepsStatesStep ==
 C19_TickKeepsStates == [][C19_TickKeepsStatesStep]_vars
 
 -----------------------------------------------------------------------------
+(* C11 — whenever the engine is quiescent the store holds a complete image:   *)
+(* no task row lags its live task (specification: a state written since the  *)
+(* last upsert; observed runs: any difference in state, predecessor, error,   *)
+(* data, start / end time presence; the process row in state, error, env)     *)
+V_C11_Image ==
+  IF ~Quiescent THEN {}
+  ELSE UNION { { V("C11_Image", pid, t, {}) : t \in procs[pid].dirty }
+               : pid \in { q \in LivePids : ~procs[q].gone } }
+
+(* C17 — retention.  Observed runs carry what is left in the store; in the    *)
+(* specification a process is either wholly there or gone.                    *)
+V_C17_Retention ==
+  IF ~Quiescent THEN {}
+  ELSE { V("C17_Retention", pid, NoKey, {}) :
+           pid \in { q \in LivePids :
+                      /\ Terminated(q)
+                      /\ IF Keep THEN procs[q].gone ELSE ~procs[q].gone } }
+V_C17_RowsLeft ==          \* (observed runs: exactly what the configuration says is left)
+  IF ~Quiescent THEN {}
+  ELSE { V("C17_RowsLeft", pid, NoKey, {}) :
+           pid \in { q \in LivePids :
+                      /\ Terminated(q)
+                      /\ \/ /\ procs[q].gone
+                            /\ (procs[q].rowsLeft.proc \/ procs[q].rowsLeft.tasks # 0)
+                         \/ /\ ~procs[q].gone /\ procs[q].rowsLeft.proc
+                            /\ \/ procs[q].rowsLeft.tasks # Cardinality(TaskKeys(q))
+                               \/ /\ procs[q].rowsLeft.open # 0
+                                  /\ \A t \in TaskKeys(q) : IsDone(TS(q, t).st) } }
+V_C17_Refused ==
+  IF lastAct.a = "Act" /\ lastAct.st = "gone" /\ lastRes # "err"
+  THEN { V("C17_Refused", lastAct.pid, lastAct.t, {}) } ELSE {}
+
+-----------------------------------------------------------------------------
 (* the invariants TLC checks: each property modulo known findings ...        *)
 C01_QuiescentOK      == HoldsX(V_C01_QuiescentOK)
 C02_Lifecycle        == HoldsX(V_C02_Lifecycle)
@@ -442,6 +475,10 @@ C08_TerminalReported == HoldsX(V_C08_TerminalReported)
 C08_BranchSilent     == HoldsX(V_C08_BranchSilent)
 C08_MsgAct           == HoldsX(V_C08_MsgAct)
 C08_ParentFirst      == HoldsX(V_C08_ParentFirst)
+C11_Image            == HoldsX(V_C11_Image)
+C17_Retention        == HoldsX(V_C17_Retention)
+C17_RowsLeft         == HoldsX(V_C17_RowsLeft)
+C17_Refused          == HoldsX(V_C17_Refused)
 C19_Once             == HoldsX(V_C19_Once)
 C19_NeverEarly       == HoldsX(V_C19_NeverEarly)
 C19_OnlyOpen         == HoldsX(V_C19_OnlyOpen)
@@ -457,6 +494,7 @@ AllV ==
   \cup V_C06_CaughtCompletes \cup V_C08_AtMostOne \cup V_C08_CreatedFirst
   \cup V_C08_TerminalReported \cup V_C08_BranchSilent \cup V_C08_MsgAct \cup V_C08_ParentFirst
   \cup V_C19_Once \cup V_C19_NeverEarly \cup V_C19_OnlyOpen \cup V_C19_Prompt
+  \cup V_C11_Image \cup V_C17_Retention \cup V_C17_RowsLeft \cup V_C17_Refused
 
 (* debugging aid: bound on instances per node *)
 DBG_FewInstances == \A pid \in Pids : Live(pid) => \A t \in TaskKeys(pid) : t[2] <= 3
